@@ -577,6 +577,7 @@ impl WorldB {
             Some(t) => {
                 let tok = &self.tokens[t];
                 if !(tok.key_ok && tok.protocol_ok) {
+                    obs.violate("C17", "token-opened-under-another-key-or-protocol", if tok.key_ok { "foreign-protocol" } else { "foreign-key" }, format!("id {}", id));
                     obs.violate("C05", "connected-with-foreign-token", if tok.key_ok { "foreign-protocol" } else { "foreign-key" }, format!("id {}", id));
                 }
                 if !tok.lists_server {
